@@ -123,6 +123,30 @@ class Outcome:
         return type(self.exc).__name__
 
 
+def _strip_tb(e):
+    seen = set()
+    x = e
+    while x is not None and id(x) not in seen:
+        seen.add(id(x))
+        x.__traceback__ = None
+        x = x.__cause__ or x.__context__
+    return e
+
+
+_GC_READY = False
+
+
+def deterministic_gc():
+    """Automatic cyclic GC runs at allocation-count thresholds, i.e. at times no seed controls.
+    Freeze what exists, switch it off, and collect explicitly at step boundaries instead."""
+    global _GC_READY
+    if not _GC_READY:
+        gc.collect()
+        gc.freeze()
+        gc.disable()
+        _GC_READY = True
+
+
 class World:
     """Process + disk state of one simulated run."""
 
@@ -176,8 +200,14 @@ class World:
                 except SimCrash:
                     out.crashed = True
                 except Exception as e:  # library code failing is an observation, not a harness error
-                    out.exc = e
                     out.tb = traceback.format_exc(limit=-6)
+                    out.exc = _strip_tb(e)
+            # Objects kept alive only by the failed call's frames (e.g. a half-written MrcFile) are
+            # finalised *now*, inside the call, as in a script that catches the error and moves on;
+            # cyclic garbage holding Sim handles is collected here too, so that no finaliser ever
+            # runs at a time the scheduler did not choose.
+            if fs.open_handles:
+                gc.collect()
         finally:
             out.io, out.fired, out.nprims = fs.end_call()
             sys.stdout = old_stdout
@@ -418,6 +448,7 @@ def _finish(world, res, steps, cfg, prop, seed, tier, faulty, keep_trace):
 def execute(prop, cfg, steps_iter, seed, tier, faulty, keep_trace=False):
     """Run steps produced by steps_iter(world) (a generator receiving the world) to completion."""
     t0 = _time.perf_counter()
+    deterministic_gc()
     res = RunResult()
     res.seed = seed
     world = World(prop, cfg, seed)
@@ -441,6 +472,8 @@ def execute(prop, cfg, steps_iter, seed, tier, faulty, keep_trace=False):
             except Violation as v:
                 res.violation = {"clause": v.clause, "sig": v.sig, "detail": v.detail, "step": world.step_no}
     finally:
+        world.sessions.clear()
+        gc.collect()
         simfs.mount(None)
     _finish(world, res, steps, cfg, prop, seed, tier, faulty, keep_trace)
     res.wall = _time.perf_counter() - t0
@@ -607,3 +640,7 @@ class Property:
 
     def shrink_step(self, step):
         return ()
+
+    @staticmethod
+    def abspath(world, p):
+        return p if p.startswith("/") else world.fs.cwd.rstrip("/") + "/" + p
